@@ -19,12 +19,16 @@
 (*                                                 emu = the terminal emulator's own mode flags (tmux sessions)      *)
 (*                                                                                                                  *)
 (* The tracked mode changes (alt, mouse, paste) must be exactly what the renderer calls of FzfLifecycle write, in    *)
-(* their order: a step of the module (RInit, Flush, StartChild("execute"), ChildExit("execute"), BgPause, ExitVia)   *)
-(* is taken when no written change is outstanding, its `out` becomes the changes expected next (`todo`).  Cursor     *)
-(* and autowrap changes bracket every write and are followed on the terminal side only (tscr).  Commands that do     *)
-(* not own the terminal write nothing: their StartChild / ChildExit / RemoveTemp steps are taken in bulk at each     *)
-(* `child` observation.  At `exit` the observed world must equal the state ExitVia leaves: terminal as found,        *)
-(* nothing alive, nothing left, documented status.                                                                  *)
+(* their order: a step of the module that writes (RInit, Flush, StartChild("execute"), ChildExit("execute"),         *)
+(* Suspend / Continue, ExitVia or one of the named deviations) is taken when nothing written is outstanding and the  *)
+(* first change it writes is the next one in the stream; its `out` becomes the changes expected next (`todo`).       *)
+(* Steps that write nothing and that fzf takes by itself (BgPause, ChildExit("silent"), Continue with --height) are  *)
+(* taken silently.  Cursor and autowrap changes bracket every write and are followed on the terminal side only       *)
+(* (tscr).  Commands that do not own the terminal write nothing: their StartChild / ChildExit / RemoveTemp steps     *)
+(* are taken in bulk at each `child` observation; a command whose start raced with the exit request (never           *)
+(* observed) is hypothesised only if the `exit` event shows that it left something behind.  At `exit` the observed   *)
+(* world must equal the state ExitVia leaves: terminal as found, nothing alive, nothing left, documented status,     *)
+(* fzf answered until it was told to go, no Go panic, process gone.                                                  *)
 EXTENDS FzfLifecycle, Json, IOUtils
 
 TraceLog == ndJsonDeserialize(IOEnv.TRACE)
